@@ -16,7 +16,7 @@ for f in sorted(glob.glob("/verif/seeded/*/meta.json")):
     own = m["property"] in m.get("caught_by", [])
     rows.append((name, m["property"], m.get("confirmed"), ", ".join(m.get("caught_by", [])) or "-", "yes" if own else "NO", ", ".join(m.get("inconclusive", [])) or "-", needs, m.get("note", "")))
 out = ["# Seeded changes", "",
-       "Each directory holds a change to wneessen/go-mail written by an independent sub-agent that saw only the text of one property (nothing from /verif): `patch.diff`, the agent's demonstration (`demo_test.go`), its `AGENT_README.md`, and `meta.json` written by `tools/seedeval.py` (patch applies and builds, the repository's suite loses no baseline test, the demonstration fails with the patch and passes without, and the result of every quick check with the patch applied to /repo).",
+       "Each directory holds a change to wneessen/go-mail written by an independent sub-agent that saw only the text of one property (nothing from /verif): `patch.diff`, the agent's demonstration (`demo_test.go`), its `AGENT_README.md`, and `meta.json` written by `tools/seedeval.py` (patch applies and builds, the repository's suite loses no baseline test, the demonstration fails with the patch and passes without, and the result of every quick check with the patch applied - to /repo itself in rounds 1-5, to a scratch worktree of /repo's HEAD judged through `VERIF_REPO` from round 6 on; from round 6 on the other checks are only run when the property's own check stays silent, so the column of checks lists cross-catches only for those seeds). Seeds named `-r7a` / `-r8a` come from the two short rounds with one change per agent.",
        "", "| seed | property | confirmed | checks reporting VIOLATION | own check catches it | inconclusive | what it is (agent's words) | note |", "|---|---|---|---|---|---|---|---|"]
 for r in rows:
     out.append("| %s | %s | %s | %s | %s | %s | %s | %s |" % r)
